@@ -40,6 +40,7 @@ class Lag1(KT):
 
 class LagN(KT):
     name = 'lag'; module = 'rxsci.data.lag'; factory = 'lag'
+    replayable = False          # pre-state holds a deque object: not driven natively by the generic replay
     properties = ('C10', 'C02', 'C03', 'C11')
     states_decl = [('obj', None)]
 
@@ -345,6 +346,7 @@ class DoActionMux(KT):
 
 class FlatMapMux(KT):
     name = 'flat_map_mux'; module = 'rxsci.operators.flat_map'; factory = 'flat_map_mux'
+    replayable = False          # items are iterables: the generic replay only builds scalar / opaque items
     properties = ('C01', 'C03', 'C11')
 
     def __init__(self):
